@@ -3,7 +3,8 @@
 // U-lookup: variable lookup with cycle detection (EvalState::lookup, src/expression.rs): a variable
 // that is already being evaluated is an error (no unbounded recursion through `$a -> $b -> $a`),
 // and the list of variables under evaluation is a stack: restored after a successful lookup
-// (so `$v + $v` works and U-expr's assumption about lookup holds).
+// (so `$v + $v` works and U-expr's assumption about lookup holds); the nested evaluation inherits the
+// nesting depth, so that the bound of U-expr (C01.expr.nesting_bounded) covers chains of variable references.
 //@assume tokenize / EvalState::new / expr_list / get_var are opaque here (expr_list is proved in U-expr); `xs.iter().contains(&String::from(v))` (itertools) is membership of v in xs
 use vstd::prelude::*;
 //@prelude fmt_macro
@@ -40,14 +41,17 @@ impl<'a> EvalState<'a> {
     /// the nested evaluation starts from the variables under evaluation INCLUDING the current one
     #[verifier::external_body]
     fn new(tokens: Vec<Token>, context: &'a Ctx, checked_vars: &Vec<String>) -> (r: EvalState<'a>)
-        ensures r.checked_vars@ == checked_vars@
+        ensures r.checked_vars@ == checked_vars@, r.depth == 0
     { unimplemented!() }
     #[verifier::external_body]
     fn peek(&self) -> Option<&Token> { unimplemented!() }
 
 //@item src/expression.rs :: impl<'a> EvalState<'a> :: fn lookup
 //@ replace[R-itertools] <<<self.checked_vars.iter().contains(&String::from(v))>>> => <<<vec_has(&self.checked_vars, v)>>>
+//@ before <<<let e = expr_list(&mut es)?;>>>
+//@ | assert(es.depth == self.depth); // the nested evaluation continues the caller's nesting count (a chain of variable references is bounded like nested parentheses) @C01.expr.nested_eval_inherits_depth
 //@ ensures
+//@ - final(self).depth == old(self).depth     @@C01.expr.depth_restored
 //@ - names(old(self).checked_vars@).contains(v@) ==> r is Err && r->Err_0 is CircularRefError     @@C14.var.circular_is_error @@C01.var.cycle_detected
 //@ - var_of(*old(self).context, v@) is None ==> r is Err     @@C14.var.undefined_is_error
 //@ - r is Ok ==> final(self).checked_vars@ == old(self).checked_vars@ && final(self).index == old(self).index && final(self).tokens == old(self).tokens     @@C14.var.checked_restored
